@@ -85,10 +85,15 @@ func (s *Stash) Add(form Form) {
 	}
 	s.forms = append(s.forms, form.Dup())
 	if 0 < len(s.filename) {
+		verifFS("stash.add.before-open")
 		f, err := os.OpenFile(s.filename, os.O_APPEND|os.O_CREATE|os.O_WRONLY, 0644)
+		verifFS("stash.add.after-open")
 		if err == nil {
+			defer verifFS("stash.add.after-close")
 			defer func() { _ = f.Close() }()
+			verifFS("stash.add.before-write")
 			_, err = f.Write(append(form.Append(nil), '\n'))
+			verifFS("stash.add.after-write")
 		}
 		if err != nil {
 			panic(err)
@@ -169,15 +174,20 @@ func (s *Stash) Clear(start, end int) {
 	if len(s.filename) == 0 {
 		return
 	}
+	verifFS("stash.clear.before-open")
 	f, err := os.OpenFile(s.filename, os.O_TRUNC|os.O_APPEND|os.O_CREATE|os.O_WRONLY, 0644)
 	if err != nil {
 		panic(err)
 	}
+	verifFS("stash.clear.after-open")
+	defer verifFS("stash.clear.after-close")
 	defer func() { _ = f.Close() }()
 	for _, frm := range s.forms {
+		verifFS("stash.clear.before-write")
 		if _, err = f.Write(frm.TabAppend(nil)); err != nil {
 			panic(err)
 		}
+		verifFS("stash.clear.after-write")
 	}
 }
 
